@@ -4,6 +4,7 @@ import (
 	"fmt"
 	"go/token"
 	"go/types"
+	"regexp"
 	"sort"
 	"strings"
 
@@ -31,6 +32,7 @@ func init() {
 			{Name: "mirror-broken", File: "semantic/version-redhat.go", Old: "	if diff := compareRedHatComponents(v.release, w.release); diff != 0 {", New: "	if diff := compareRedHatComponents(v.release, w.version); diff != 0 {", Rule: "D3-mirror", Site: "redHatVersion"},
 			{Name: "branch-sign-flipped", File: "semantic/version-pypi.go", Old: "	case pv.pre.number == nil:\n		return +1\n	case pw.pre.number == nil:\n		return -1", New: "	case pv.pre.number == nil:\n		return +1\n	case pw.pre.number == nil:\n		return +1", Rule: "D4-mirrored-branches", Site: "comparePre"},
 			{Name: "packagist-trailing-component-atoi", File: "semantic/version-packagist.go", Old: "		next := a[len(b)]\n\n		if _, err := convertToBigInt(next); err == nil {", New: "		next := a[len(b)]\n\n		if _, err := strconv.Atoi(next); err == nil {", Old2: "import (\n", New2: "import (\n	\"strconv\"\n", Rule: "D5-arbitrary-precision", Site: "comparePackagistComponents"},
+			{Name: "alpine-guard-one-sided", File: "semantic/version-alpine.go", Old: "	if anc.index != 0 && b.index != 0 {", New: "	if anc.index != 0 {", Rule: "D6-symmetric-guards", Site: "alpineNumberComponent.Cmp"},
 		},
 	})
 }
@@ -72,6 +74,7 @@ var auditedC07OK = map[string]auditEntry{
 }
 
 func runC07(p *Prog, r *Report) {
+	r.Rule("D6-symmetric-guards", "a test made on one operand of a comparator is also made on the other")
 	r.Rule("D5-arbitrary-precision", "numeric components are never parsed with fixed-width integer parsing")
 	c07Precision(p, r)
 	r.Rule("D1-bounds", "index/slice expressions proved in bounds or audited with invariant")
@@ -433,6 +436,7 @@ func c07Mirror(p *Prog, r *Report, fns []*ssa.Function) {
 		n++
 		checkMirror(p, r, "D3-mirror", fn, a, b)
 		checkMirroredBranches(p, r, "D4-mirrored-branches", fn, a, b)
+		checkSymmetricGuards(p, r, "D6-symmetric-guards", fn, a, b)
 	}
 	r.Instances("D3-mirror", "comparator functions in package semantic", n, 20)
 }
@@ -661,4 +665,104 @@ func c07Precision(p *Prog, r *Report) {
 		r.OK("D5-arbitrary-precision", "semantic:no-fixed-width-parse", "-", "no strconv integer/float parsing in package semantic")
 	}
 	r.Instances("D5-arbitrary-precision", "big.Int parsing sites in package semantic", nbig, 3)
+}
+
+// checkSymmetricGuards: in a comparator every branch condition that looks at one operand only
+// (a field / element / pure call of a compared against a constant, nil or a length) has a twin that
+// makes the same test on the other operand somewhere in the function. A guard that exists for one
+// side only makes compare(a, b) and compare(b, a) take different branches for the same pair, which
+// breaks antisymmetry (e.g. a trailing-zero rule applied only when the receiver has an index).
+func checkSymmetricGuards(p *Prog, r *Report, rule string, fn *ssa.Function, a, b ssa.Value) {
+	roots := map[ssa.Value]string{a: "A", b: "B"}
+	seen := map[string]map[string]bool{} // test -> roots
+	pos := map[string]token.Pos{}
+	for _, blk := range fn.Blocks {
+		ifi := blockIf(blk)
+		if ifi == nil {
+			continue
+		}
+		inner, _ := stripNot(ifi.Cond)
+		var test, root string
+		switch x := inner.(type) {
+		case *ssa.BinOp:
+			switch x.Op {
+			case token.EQL, token.NEQ, token.LSS, token.LEQ, token.GTR, token.GEQ:
+			default:
+				continue
+			}
+			rx, px, okx := accessPath(x.X, roots, 0)
+			ry, py, oky := accessPath(x.Y, roots, 0)
+			if !okx || !oky {
+				continue
+			}
+			// comparisons the compiler front end synthesises for `for i := range n` have no position
+			if x.Pos() == token.NoPos {
+				continue
+			}
+			// the other side must be a constant (nil, "", 0, …): loop bounds and comparisons with
+			// loop-carried locals are out of this rule's reach
+			_, cx := x.X.(*ssa.Const)
+			_, cy := x.Y.(*ssa.Const)
+			if !cx && !cy {
+				continue
+			}
+			op := x.Op
+			switch {
+			case rx != "" && ry == "":
+				root, test = rx, px+" "+normCmp(op)+" "+py
+			case ry != "" && rx == "":
+				root, test = ry, py+" "+normCmp(swapOp(op))+" "+px
+			default:
+				continue // both rooted (D3) or neither
+			}
+		default:
+			rx, px, okx := accessPath(inner, roots, 0)
+			if !okx || rx == "" {
+				continue
+			}
+			root, test = rx, px
+		}
+		// elements selected with a loop-carried index (a[ai] vs b[bi]) cannot be paired by name
+		if varIndexRe.MatchString(test) {
+			continue
+		}
+		if seen[test] == nil {
+			seen[test] = map[string]bool{}
+		}
+		seen[test][root] = true
+		pos[test] = ifi.Pos()
+	}
+	var tests []string
+	for t := range seen {
+		tests = append(tests, t)
+	}
+	sort.Strings(tests)
+	for _, t := range tests {
+		rs := seen[t]
+		site := fmt.Sprintf("%s:%s", fnKey(fn), short(t, 80))
+		if rs["A"] && rs["B"] {
+			r.OK(rule, site, p.Pos(pos[t]), "tested on both operands")
+			continue
+		}
+		only := "the first"
+		if rs["B"] {
+			only = "the second"
+		}
+		r.Fail(rule, site, p.Pos(pos[t]), "the test '"+t+"' is made on "+only+" operand only: compare(x, y) and compare(y, x) take different branches for the same pair of versions, so the comparison is not the negation of its converse")
+	}
+}
+
+var varIndexRe = regexp.MustCompile(`\[t\d+\]`)
+
+// normCmp folds == / != (and < / >=, <= / >) into one name: the polarity of the branch does not matter here.
+func normCmp(op token.Token) string {
+	switch op {
+	case token.EQL, token.NEQ:
+		return "=="
+	case token.LSS, token.GEQ:
+		return "<"
+	case token.LEQ, token.GTR:
+		return "<="
+	}
+	return op.String()
 }
